@@ -8738,7 +8738,8 @@ class Image(SVGElement, GraphicObject, Transformable):
         self.y = Length(values.get(SVG_ATTR_Y, 0)).value()
         self.width = Length(values.get(SVG_ATTR_WIDTH, "100%")).value()
         self.height = Length(values.get(SVG_ATTR_HEIGHT, "100%")).value()
-        if "image" in values:
+        if "image" in values and not isinstance(values["image"], str):
+            # An image object handed to the constructor; text is a document's attribute of that name.
             self.image = values["image"]
             self.image_width, self.image_height = self.image.size
 
